@@ -15,8 +15,8 @@ import (
 
 // Fault kinds assignable to one signer call / one verifier call.
 var (
-	c20SignKinds   = []string{"ok", "signer.err", "signer.empty", "signer.nil", "signer.bytes+err", "hsm.err", "hsm.badDER", "hsm.empty", "entropy.err@k", "entropy.short"}
-	c20VerifyKinds = []string{"ok", "verifier.err"}
+	c20SignKinds   = []string{"ok", "signer.err", "signer.empty", "signer.nil", "signer.bytes+err", "signer.panic", "hsm.err", "hsm.badDER", "hsm.empty", "entropy.err@k", "entropy.short"}
+	c20VerifyKinds = []string{"ok", "verifier.err", "verifier.panic"}
 )
 
 type c20Entry struct {
@@ -88,7 +88,7 @@ func init() {
 	Infos["C20"] = ScenarioInfo{
 		Level: "fault_enumeration",
 		Rule: fmt.Sprintf("one run = one signing or verifying entry point (Sign1, Sign1Untagged, Sign1Message.Sign, Signature.Sign, Countersignature.Sign, Countersign0, SignHashEnvelope, SignMessage.Sign with n <= %d signers; Sign1Message.Verify, Signature.Verify, Countersignature.Verify, VerifyCountersign0, VerifyHashEnvelope, SignMessage.Verify with n <= %d verifiers) "+
-			"driven under one fault vector: each signer call is assigned one of {ok, signer.err, signer.empty, signer.nil, signer.bytes+err, hsm.err, hsm.badDER, hsm.empty, entropy.err@k, entropy.short}, each verifier call one of {ok, verifier.err}. "+
+			"driven under one fault vector: each signer call is assigned one of {ok, signer.err, signer.empty, signer.nil, signer.bytes+err, signer.panic (the seam panics; go-cose may pass the panic on, which counts as the error, but must not turn it into success), hsm.err, hsm.badDER, hsm.empty, entropy.err@k, entropy.short}, each verifier call one of {ok, verifier.err, verifier.panic}. "+
 			"The thorough tier enumerates ALL %d (entry point, n, vector) combinations, each under %d tape-drawn contexts (headers, payload, keys/algorithms, external data, k); the quick tier samples vectors from the tape. "+
 			"Oracle: any error kind => the call returns a non-nil error that wraps the injected one, returns no bytes, leaves the failing slot's signature empty, MarshalCBOR of the message errors, and no later signer/verifier was called; an empty-returning signer must surface as an error by MarshalCBOR at the latest and no helper returns bytes; entropy.short => success and the signature verifies; an ECDSA or PSS signature produced without the caller's entropy source having been read is reported (the injected failure could not surface); "+
 			"verifier.err at any position is returned, never nil, and later verifiers are not consulted; the reference parser finds no zero-length signature in anything emitted. "+
@@ -174,12 +174,14 @@ func (r *Run) c20Signer(t *tape.Tape, kind string, log *[]string, tag string) *c
 			c.spy.Fault, c.inject = "err", ErrSigner
 		case "signer.bytes+err":
 			c.spy.Fault, c.inject = "bytes+err", ErrSigner
+		case "signer.panic":
+			c.spy.Fault, c.inject = "panic", ErrSeamPanic
 		case "signer.empty":
 			c.spy.Fault = "empty"
 		case "signer.nil":
 			c.spy.Fault = "nil"
 		}
-		c.isErr = func() bool { return kind == "signer.err" || kind == "signer.bytes+err" }
+		c.isErr = func() bool { return kind == "signer.err" || kind == "signer.bytes+err" || kind == "signer.panic" }
 	}
 	return c
 }
@@ -208,27 +210,69 @@ func (c *c20Call) made() bool {
 	return len(c.spy.Calls) > 0
 }
 
-// noEmptySignature checks emitted bytes with the reference parser.
+// noEmptySignature checks emitted bytes with the reference parser: no
+// signature field of any layer (message, COSE_Signature entries,
+// countersignatures under labels 7/11 at any depth) is zero-length and a
+// COSE_Sign carries at least one signature.  Only structural positions are
+// looked at: a header VALUE that happens to look like [h'', {}, h''] is
+// application data.
 func (r *Run) noEmptySignature(what string, b []byte) {
 	it, err := refcbor.ParseOne(b)
 	if err != nil {
 		return
 	}
-	bad := false
-	refcbor.Walk(it, func(x *refcbor.Item, _ int) {
-		if x.Major == refcbor.MArray && (len(x.Elems) == 3 || len(x.Elems) == 4) && x.Elems[0].Major == refcbor.MBstr && x.Elems[1].Major == refcbor.MMap {
-			last := x.Elems[len(x.Elems)-1]
-			if last.Major == refcbor.MBstr && len(last.Data) == 0 {
-				bad = true
+	for it.Major == refcbor.MTag {
+		it = it.Elems[0]
+	}
+	bad := ""
+	var sigObj func(o *refcbor.Item, where string, depth int)
+	unprot := func(u *refcbor.Item, where string, depth int) {
+		if u == nil || u.Major != refcbor.MMap || depth > 32 {
+			return
+		}
+		for _, label := range []int64{refcose.LCsig, refcose.LCsigV2} {
+			v := refcose.Lookup(u, label)
+			if v == nil || v.Major != refcbor.MArray {
+				continue
 			}
-			if last.Major == refcbor.MArray && len(last.Elems) == 0 && len(x.Elems) == 4 {
-				bad = true
+			objs := v.Elems
+			if len(v.Elems) == 3 && v.Elems[0].Major == refcbor.MBstr {
+				objs = []*refcbor.Item{v}
+			}
+			for _, o := range objs {
+				sigObj(o, where+"/countersignature", depth+1)
 			}
 		}
-	})
+	}
+	sigObj = func(o *refcbor.Item, where string, depth int) {
+		if o.Major != refcbor.MArray || len(o.Elems) != 3 {
+			return
+		}
+		if s := o.Elems[2]; s.Major == refcbor.MBstr && len(s.Data) == 0 {
+			bad = where
+		}
+		unprot(o.Elems[1], where, depth)
+	}
+	switch {
+	case it.Major == refcbor.MArray && len(it.Elems) == 4 && it.Elems[3].Major == refcbor.MArray:
+		if len(it.Elems[3].Elems) == 0 {
+			bad = "COSE_Sign without signatures"
+		}
+		unprot(it.Elems[1], "body", 0)
+		for _, s := range it.Elems[3].Elems {
+			sigObj(s, "COSE_Signature", 0)
+		}
+	case it.Major == refcbor.MArray && len(it.Elems) == 4:
+		if s := it.Elems[3]; s.Major == refcbor.MBstr && len(s.Data) == 0 {
+			bad = "COSE_Sign1 signature"
+		}
+		unprot(it.Elems[1], "body", 0)
+	default:
+		sigObj(it, "signature object", 0)
+	}
 	r.Check()
-	if bad {
-		r.Fail("empty-signature-emitted/"+what, "%s emitted a message that carries a zero-length signature (or no signatures): %s", what, hexShort(b))
+	if bad != "" {
+		r.Fail("empty-signature-emitted/"+what, "%s emitted a message that carries a zero-length signature (%s): %s", what, bad, hexShort(b))
 	}
 }
 
@@ -349,6 +393,11 @@ func c20Sign(r *Run, t *tape.Tape, e c20Entry, n int, vec []int) {
 			}
 			return m.Verify(external, vs...)
 		}
+	}
+	if perr := r.TakeSeamPanic(nil); perr != nil {
+		// go-cose passed the seam's panic on to the caller: nothing was
+		// returned, which the oracle below treats as the error
+		err, out = perr, nil
 	}
 	// what fired
 	firstErr, firstEmpty := -1, -1
@@ -541,8 +590,8 @@ func c20Verify(r *Run, t *tape.Tape, e c20Entry, n int, vec []int) {
 		kind := c20VerifyKinds[vec[i]]
 		fired[i] = kind
 		spies[i] = &SpyVerifier{Inner: r.verifierFor(keys[i], false), Alg: cose.Algorithm(keys[i].Alg), Log: &log, Tag: itoa(i)}
-		if kind == "verifier.err" {
-			spies[i].Fault = "err"
+		if kind == "verifier.err" || kind == "verifier.panic" {
+			spies[i].Fault = kind[len("verifier."):]
 			if firstErr < 0 {
 				firstErr = i
 			}
@@ -611,9 +660,10 @@ func c20Verify(r *Run, t *tape.Tape, e c20Entry, n int, vec []int) {
 		}
 		r.Lib(func() { err = m.Verify(external, vs...) })
 	}
+	err = r.TakeSeamPanic(err)
 	for i := range spies {
-		if spies[i].Fault == "err" && len(spies[i].Calls) > 0 {
-			r.Fired("verifier.err")
+		if spies[i].Fault != "" && len(spies[i].Calls) > 0 {
+			r.Fired("verifier." + spies[i].Fault)
 		}
 	}
 	r.Op("VERIFY", "%s n=%d vector=%v -> %s", e.name, n, fired, errTag(err))
@@ -625,7 +675,7 @@ func c20Verify(r *Run, t *tape.Tape, e c20Entry, n int, vec []int) {
 			r.Fail("verifier-error-turned-into-success"+sig, "verifier %d returned an error and %s returned nil (vector %v)", firstErr, e.name, fired)
 			return
 		}
-		if !errors.Is(err, ErrVerifier) {
+		if !errors.Is(err, ErrVerifier) && !errors.Is(err, ErrSeamPanic) {
 			r.Fail("verifier-error-replaced"+sig, "verifier %d returned the injected error, %s returned %v", firstErr, e.name, err)
 		}
 		if envMsg != nil {
